@@ -160,6 +160,8 @@ def make_body(ctx, node, is_td_hint=None):
       raise FailureExc('listed failure in %s' % name)
     if b == 'I':
       return 'not a PhaseResult'
+    if b == 'J':
+      return [False, 0, '', [], 0.0, {}][(len(name) + ctx.att[name]) % 6]
     if b == 'T':
       while True:
         time.sleep(1)
@@ -229,6 +231,12 @@ def make_plug(ctx, cid, bad, tdmode):
     if tdmode == 'hang':
       while True:
         time.sleep(1)
+    if tdmode == 'hardhang':       # blocks and cannot be killed: it has to be abandoned
+      while True:
+        try:
+          time.sleep(1000)
+        except BaseException:  # pylint: disable=broad-except
+          pass
 
   return type('Plug_%s' % cid, (base_plugs.BasePlug,),
               dict(__init__=__init__, tearDown=tearDown))
@@ -410,7 +418,7 @@ def _run_program(prog, calls, hooks=None, timeout_s=None):
       return
     crashed.append('%s: %s' % (args.exc_type.__name__, args.exc_value))
   threading.excepthook = hook
-  hang = any(v == 'hang' for v in prog['plugspec']['tdmode'].values())
+  hang = any(v in ('hang', 'hardhang') for v in prog['plugspec']['tdmode'].values())
   CONF.load(allow_unset_measurements=bool(prog['set']['unset']),
             plug_teardown_timeout_s=3 if hang else 0, _override=True)
   try:
